@@ -190,7 +190,14 @@ def compare(cx, actual, expected, label, seen=None, kind="post"):
         for k in sorted(keys):
             if k.startswith("_ghost"):
                 continue
-            if k not in actual.attrs or k not in expected.attrs:
+            if k not in expected.attrs:
+                # an attribute the contract knows nothing about (neither in its pre-state nor set by its model), e.g. a
+                # diagnostic counter the code started to keep: outside the contract's frame, not a mismatch
+                note = f"{label}.{k}: the code sets an attribute the contract does not describe (ignored by the frame check)"
+                if note not in cx.notes:
+                    cx.notes.append(note)
+                continue
+            if k not in actual.attrs:
                 cx.oblige(f"{label}.{k}: attribute present in both real and specified state", False, kind=kind)
                 continue
             compare(cx, actual.attrs[k], expected.attrs[k], f"{label}.{k}", seen, kind)
@@ -365,7 +372,15 @@ def _run_unit(spec: Spec, repo: Repo | None = None, timeout_s=20.0, want_smt2=Fa
             pending.extend(cx.pending)
             break
         except Exception as e:  # noqa: BLE001
-            res.error = f"{type(e).__name__}: {e}\n{traceback.format_exc()[-1500:]}"
+            # The generator or a contract's model object could not interpret this code shape. On the unchanged tree
+            # every unit runs through, so this arises on CHANGED code: the unit is undecided, not a checker failure
+            # (the text is kept in the evidence; set PYVC_STRICT=1 to get the old behaviour while developing).
+            tb = traceback.format_exc()[-1200:]
+            if os.environ.get("PYVC_STRICT"):
+                res.error = f"{type(e).__name__}: {e}\n{tb}"
+            else:
+                res.unsupported = f"internal {type(e).__name__} while interpreting this code: {str(e)[:160]} (at {cx.loc})"
+                res.notes.append("generator exception: " + tb.replace("\n", " | ")[-600:])
             break
         pending.extend(cx.pending)
         # vacuity canary: the assumptions at the end of the path must be satisfiable
